@@ -4,7 +4,11 @@
 package node
 
 import (
+	"encoding/json"
+
 	"github.com/youzan/ZanRedisDB/common"
+	"github.com/youzan/ZanRedisDB/pkg/wait"
+	"github.com/youzan/ZanRedisDB/raft/raftpb"
 	"github.com/youzan/ZanRedisDB/rockredis"
 )
 
@@ -41,4 +45,44 @@ func (nd *KVNode) VerifReadHandler(name string) (common.CommandFunc, bool) {
 
 func (nd *KVNode) VerifMergeHandler(name string) (common.MergeCommandFunc, bool, bool) {
 	return nd.router.GetMergeCmdHandler(name)
+}
+
+// ---- cross-cluster replay seam (C19) -----------------------------------------------------
+
+// VerifNewApplyNode: like VerifNewReadNode plus what KVNode.applyEntry touches
+// (a raftNode that only carries its description and member maps; raft is not started).
+func VerifNewApplyNode(sm StateMachine, ns string, policy common.ExpirationPolicy, w wait.Wait) *KVNode {
+	nd := VerifNewReadNode(sm, ns, policy)
+	nd.w = w
+	nd.rn = &raftNode{description: ns, members: map[uint64]*common.MemberInfo{}, learnerMems: map[uint64]*common.MemberInfo{}, config: &RaftConfig{}}
+	return nd
+}
+
+// VerifApplyEntry is KVNode.applyEntry (the apply loop's per-entry step).
+func (nd *KVNode) VerifApplyEntry(e raftpb.Entry, isReplaying bool, batch IBatchOperator) bool {
+	return nd.applyEntry(e, isReplaying, batch)
+}
+
+func (nd *KVNode) VerifBatchOperator() IBatchOperator { return nd.sm.GetBatchOperator() }
+
+// VerifSnapshotMeta is the part of KVNode.GetSnapshot that carries the synced positions,
+// serialised exactly as a raft snapshot's data is (JSON of KVSnapInfo).
+func (nd *KVNode) VerifSnapshotMeta() []byte {
+	var si KVSnapInfo
+	si.RemoteSyncedStates = nd.remoteSyncedStates.Clone()
+	d, err := json.Marshal(&si)
+	if err != nil {
+		panic(err)
+	}
+	return d
+}
+
+// VerifRestoreSnapshotMeta is the tail of KVNode.RestoreFromSnapshot.
+func (nd *KVNode) VerifRestoreSnapshotMeta(data []byte) error {
+	var si KVSnapInfo
+	if err := json.Unmarshal(data, &si); err != nil {
+		return err
+	}
+	nd.remoteSyncedStates.RestoreStates(si.RemoteSyncedStates)
+	return nil
 }
